@@ -68,7 +68,7 @@ func (g *tgen) condWriteOp(rt *rapid.T, db *model.DB, allowRetOnFail bool) model
 	return normOp(op)
 }
 
-const ruleC05 = "rapid: generated schema (0-2 indexes), table populated with 0-6 items through a write history, then conditional PutItem / UpdateItem / DeleteItem on pool keys whose condition (existence guards on the key, comparisons, functions, compounds) is generated over the target's stored item or over another stored item; both SDK clients against the reference model: the write is applied iff the model evaluates the condition true on the target's own stored item (empty item if none); on refusal the error class is ConditionalCheckFailed, the complete internal snapshot (table, every index) is unchanged, and (v2 UpdateItem, when requested) the carried item equals the stored item; after every step full scans of table and indexes are compared. Non-trivial = conditional write for which some other stored item evaluates the condition differently from the target; distinct = hash of (table contents, request)."
+const ruleC05 = "rapid: generated schema (0-2 indexes), table populated with 0-6 items through a write history, then conditional PutItem / UpdateItem / DeleteItem on pool keys whose condition (existence guards on the key, comparisons, functions, compounds) is generated over the target's stored item or over another stored item, and twins of earlier conditions that differ only in the letter case of one attribute name or placeholder; both SDK clients against the reference model: the write is applied iff the model evaluates the condition true on the target's own stored item (empty item if none); on refusal the error class is ConditionalCheckFailed, the complete internal snapshot (table, every index) is unchanged, and (v2 UpdateItem, when requested) the carried item equals the stored item; after every step full scans of table and indexes are compared. Non-trivial = conditional write for which some other stored item evaluates the condition differently from the target; distinct = hash of (table contents, request)."
 
 // TestC05 decides property C05.
 func TestC05(t *testing.T) {
@@ -81,6 +81,9 @@ func TestC05(t *testing.T) {
 		o := avOpts(2, true)
 		g := newTgen(rt, s, o, rapid.IntRange(3, 7).Draw(rt, "poolSize"))
 		g.maxAttrs = 3
+		// attribute names that differ only in letter case are different attributes
+		g.attrNames = append(append([]string{}, gen.AttrNames...), "A", "B", "Flag")
+		var lastCond *model.Op
 		fail := func(f *failure) {
 			if f != nil {
 				failCase(rt, "C05", "history:C05", f, w.asCase())
@@ -100,49 +103,73 @@ func TestC05(t *testing.T) {
 			_, _, f := w.do(model.Op{Kind: "Put", Table: s.Table, Item: g.item(rt)})
 			fail(f)
 		}
-		rt.Repeat(map[string]func(*rapid.T){
-			"condWrite": func(rt *rapid.T) {
-				op := g.condWriteOp(rt, w.m, true)
-				before := w.m
-				res, status, f := w.do(op)
-				fail(f)
-				if status != stepDone {
-					return
-				}
-				conds++
-				// non-triviality: does some bystander evaluate the condition differently?
-				bt := before.Tables[s.Table]
-				var key model.Item
-				if op.Kind == "Put" {
-					key = bt.KeyItem(op.Item)
-				} else {
-					key = op.Key
-				}
-				target := stored(before, s.Table, key)
-				e, perr := model.ParseCondition(op.Cond)
-				nt := false
-				if perr == nil {
-					own := model.EvalCond(e, model.Env{Item: orEmpty(target), Names: op.Names, Values: op.Values})
-					for ck, it := range bt.Items {
-						if tk, _ := bt.KeyOf(key); tk == ck {
-							continue
-						}
-						other := model.EvalCond(e, model.Env{Item: it, Names: op.Names, Values: op.Values})
-						if other.Single() && own.Single() && other != own {
-							nt = true
-						}
+		condWrite := func(rt *rapid.T, op model.Op) {
+			before := w.m
+			res, status, f := w.do(op)
+			fail(f)
+			if status != stepDone {
+				return
+			}
+			lastCond = &op
+			conds++
+			// non-triviality: does some bystander evaluate the condition differently?
+			bt := before.Tables[s.Table]
+			var key model.Item
+			if op.Kind == "Put" {
+				key = bt.KeyItem(op.Item)
+			} else {
+				key = op.Key
+			}
+			target := stored(before, s.Table, key)
+			e, perr := model.ParseCondition(op.Cond)
+			nt := false
+			if perr == nil {
+				own := model.EvalCond(e, model.Env{Item: orEmpty(target), Names: op.Names, Values: op.Values})
+				for ck, it := range bt.Items {
+					if tk, _ := bt.KeyOf(key); tk == ck {
+						continue
+					}
+					other := model.EvalCond(e, model.Env{Item: it, Names: op.Names, Values: op.Values})
+					if other.Single() && own.Single() && other != own {
+						nt = true
 					}
 				}
-				st.Case(nt, []interface{}{model.CanonItems(bt.View("")), op})
-				st.Class("cond-" + op.Kind)
-				if res.Err == model.ErrCondFailed {
-					st.Class("refused")
-				} else if res.Err == "" {
-					st.Class("applied")
+			}
+			st.Case(nt, []interface{}{model.CanonItems(bt.View("")), op})
+			st.Class("cond-" + op.Kind)
+			if res.Err == model.ErrCondFailed {
+				st.Class("refused")
+			} else if res.Err == "" {
+				st.Class("applied")
+			}
+			if target == nil {
+				st.Class("target-absent")
+			}
+		}
+		rt.Repeat(map[string]func(*rapid.T){
+			"condWrite": func(rt *rapid.T) { condWrite(rt, g.condWriteOp(rt, w.m, true)) },
+			"caseTwin": func(rt *rapid.T) {
+				// the condition of an earlier request with the letter case of one
+				// identifier flipped: another expression, on another attribute or
+				// placeholder
+				if lastCond == nil {
+					return
 				}
-				if target == nil {
-					st.Class("target-absent")
+				e, err := model.ParseCondition(lastCond.Cond)
+				if err != nil {
+					return
 				}
+				tw, n2, v2, ok := condCaseTwin(rt, e, lastCond.Names, lastCond.Values)
+				if !ok {
+					return
+				}
+				op := model.Op{Kind: "Delete", Table: s.Table, Key: g.key(rt), Cond: tw, Names: n2, Values: v2}
+				if rapid.Bool().Draw(rt, "twinPut") {
+					it := g.item(rt)
+					op = model.Op{Kind: "Put", Table: s.Table, Item: it, Cond: tw, Names: n2, Values: v2}
+				}
+				st.Class("case-twin-of-an-earlier-condition")
+				condWrite(rt, normOp(op))
 			},
 			"put": func(rt *rapid.T) {
 				_, _, f := w.do(model.Op{Kind: "Put", Table: s.Table, Item: g.item(rt)})
@@ -193,7 +220,7 @@ func (g *tgen) failingOp(rt *rapid.T, db *model.DB) (model.Op, string) {
 	t := db.Tables[g.s.Table]
 	class := rapid.SampledFrom([]string{"missing-key-attr", "wrong-typed-key", "unknown-table", "unused-placeholder", "malformed-placeholder",
 		"failed-condition", "malformed-expression", "ill-typed-update", "last-action-fails", "index-key-type-put", "index-key-type-update",
-		"batch-unknown-table", "batch-bad-key", "key-attr-update"}).Draw(rt, "failClass")
+		"batch-unknown-table", "batch-bad-key", "batch-index-key-type", "key-attr-update"}).Draw(rt, "failClass")
 	key := g.key(rt)
 	badKey := func() model.Item {
 		k := model.CloneItem(key)
@@ -349,6 +376,39 @@ func (g *tgen) failingOp(rt *rapid.T, db *model.DB) (model.Op, string) {
 		pos := rapid.IntRange(0, len(reqs)).Draw(rt, "badPos")
 		reqs = append(reqs[:pos:pos], append([]model.WriteReq{bad}, reqs[pos:]...)...)
 		return model.Op{Kind: "BatchWrite", Batch: []model.TableBatch{{Table: g.s.Table, Reqs: reqs}}}, class
+	case "batch-index-key-type":
+		// valid puts and deletes of distinct keys plus one put whose index key
+		// attribute has the wrong type, at a random position
+		attrs := g.ixAttrs()
+		if len(attrs) == 0 {
+			return simpleUpdate(badKey()), "wrong-typed-key"
+		}
+		a := rapid.SampledFrom(attrs).Draw(rt, "ixAttr")
+		wrong := model.Num("7")
+		if t.Schema.Attrs[a] == "N" {
+			wrong = model.Str("wrong")
+		}
+		var reqs []model.WriteReq
+		seen := map[string]bool{}
+		bad := g.item(rt)
+		bad[a] = wrong
+		seen[model.CanonItem(t.KeyItem(bad))] = true
+		n := rapid.IntRange(1, 4).Draw(rt, "batchValid")
+		for i := 0; i < n; i++ {
+			it := g.item(rt)
+			k := t.KeyItem(it)
+			if ck := model.CanonItem(k); !seen[ck] {
+				seen[ck] = true
+				if rapid.Bool().Draw(rt, "validIsDelete") {
+					reqs = append(reqs, model.WriteReq{Delete: k})
+				} else {
+					reqs = append(reqs, model.WriteReq{Put: it})
+				}
+			}
+		}
+		pos := rapid.IntRange(0, len(reqs)).Draw(rt, "badPos")
+		reqs = append(reqs[:pos:pos], append([]model.WriteReq{{Put: bad}}, reqs[pos:]...)...)
+		return model.Op{Kind: "BatchWrite", Batch: []model.TableBatch{{Table: g.s.Table, Reqs: reqs}}}, class
 	default: // key-attr-update
 		a := rapid.SampledFrom(g.s.KeyAttrs()).Draw(rt, "keyAttr")
 		v := drawKeyValue(rt, g.s.Attrs[a], g.o, "newKeyVal")
@@ -375,7 +435,7 @@ func mergeUpdates(a, b model.Update) model.Update {
 	return out
 }
 
-const ruleC08 = "rapid state machine: C01/C03-style write history on a table with 0-3 indexes, in which about half of the steps are requests built to fail, one generator per error class (missing / wrongly typed key attribute, unknown table, unused or malformed placeholder, failed condition, token-mutated expression, ill-typed update, multi-action update whose last action fails, index-key type mismatch on Put and Update, failing sub-request inside a batch, update of a key attribute, any request under emulated failure); for every request that the implementation rejects (error or documented panic) the complete internal snapshot of every table and index and the full observable state are compared before and after on both SDK clients. A request the reference model expects to fail but the implementation accepts ends the case (whether it must fail is decided by C09/C13/C16, not here). Non-trivial = a failing request executed against a non-empty table that has at least one index; distinct = hash of the operation list."
+const ruleC08 = "rapid state machine: C01/C03-style write history on a table with 0-3 indexes, in which about half of the steps are requests built to fail, one generator per error class (missing / wrongly typed key attribute, unknown table, unused or malformed placeholder, failed condition, token-mutated expression, ill-typed update, multi-action update whose last action fails, index-key type mismatch on Put and Update, failing sub-request inside a batch (malformed key, index-key type mismatch), update of a key attribute, any request under emulated failure), plus UpdateTable index creation on the populated table (on attributes that stored items hold with another type; re-declaring the type of an index key attribute); for every request that the implementation rejects (error or documented panic) the complete internal snapshot of every table and index and the full observable state are compared before and after on both SDK clients. Once a request that the reference model expects to fail is accepted by the implementation (whether it must fail is decided by C09/C13/C16, not here) the model can no longer follow the state: the rest of the history is sent without model, and only the no-trace comparison of the internal snapshots around every failing request continues. Non-trivial = a failing request executed against a non-empty table that has at least one index; distinct = hash of the operation list."
 
 // TestC08 decides property C08.
 func TestC08(t *testing.T) {
@@ -387,6 +447,13 @@ func TestC08(t *testing.T) {
 		o := avOpts(2, true)
 		g := newTgen(rt, s, o, rapid.IntRange(3, 5).Draw(rt, "poolSize"))
 		g.maxAttrs = 3
+		if rapid.Bool().Draw(rt, "smallAttrPool") {
+			// few attribute names, of any type: an index created later on "a" or
+			// "b" meets items that hold it with a wrong type
+			g.attrNames = []string{"a", "b", "c"}
+		}
+		lateIdx := 0
+		g.redeclare = true
 		fail := func(f *failure) {
 			if f != nil {
 				failCase(rt, "C08", "history:C08", f, w.asCase())
@@ -398,74 +465,62 @@ func TestC08(t *testing.T) {
 			st.Case(nontrivial, w.Ops)
 			st.Step(w.steps)
 		}()
-		_, _, f := w.do(model.Op{Kind: "CreateTable", Schema: &s})
-		fail(f)
+		// exec runs one request. Once a request that DynamoDB rejects has been
+		// accepted the reference model cannot follow the state any more: the
+		// rest of the history is sent blind, which still decides "a request
+		// that fails leaves no trace" on the internal snapshots.
+		exec := func(op model.Op) int {
+			op.Blind = diverged
+			_, status, f := w.do(op)
+			fail(f)
+			if status == stepDiverged {
+				diverged = true
+				st.Class("history-continued-blind")
+			}
+			return status
+		}
+		countRejected := func(status int, class string) {
+			switch status {
+			case stepRejected:
+				st.Class("rejected-" + class)
+				t := w.m.Tables[s.Table]
+				if len(t.Items) > 0 && len(t.Schema.Indexes) > 0 {
+					nontrivial = true
+				}
+			case stepDiverged:
+				st.Class("accepted-" + class)
+			case stepDone:
+				st.Class("succeeded-" + class)
+			}
+		}
+		exec(model.Op{Kind: "CreateTable", Schema: &s})
 		rt.Repeat(map[string]func(*rapid.T){
-			"put": func(rt *rapid.T) {
-				if diverged {
-					return // the case ended; keep the state machine idle
-				}
-				_, status, f := w.do(model.Op{Kind: "Put", Table: s.Table, Item: g.item(rt)})
-				fail(f)
-				diverged = diverged || status == stepDiverged
-			},
-			"update": func(rt *rapid.T) {
-				if diverged {
-					return // the case ended; keep the state machine idle
-				}
-				_, status, f := w.do(normOp(g.updateOp(rt, w.m, 0)))
-				fail(f)
-				diverged = diverged || status == stepDiverged
-			},
-			"delete": func(rt *rapid.T) {
-				if diverged {
-					return // the case ended; keep the state machine idle
-				}
-				_, _, f := w.do(model.Op{Kind: "Delete", Table: s.Table, Key: g.key(rt)})
-				fail(f)
-			},
+			"put":    func(rt *rapid.T) { exec(model.Op{Kind: "Put", Table: s.Table, Item: g.item(rt)}) },
+			"update": func(rt *rapid.T) { exec(normOp(g.updateOp(rt, w.m, 0))) },
+			"delete": func(rt *rapid.T) { exec(model.Op{Kind: "Delete", Table: s.Table, Key: g.key(rt)}) },
 			"failing": func(rt *rapid.T) {
-				if diverged {
-					return // the case ended; keep the state machine idle
-				}
 				op, class := g.failingOp(rt, w.m)
-				res, status, f := w.do(op)
-				fail(f)
-				switch status {
-				case stepRejected:
-					st.Class("rejected-" + class)
-					t := w.m.Tables[s.Table]
-					if len(t.Items) > 0 && len(t.Schema.Indexes) > 0 {
-						nontrivial = true
-					}
-				case stepDiverged:
-					st.Class("accepted-" + class)
-					diverged = true
-				case stepDone:
-					_ = res
-					st.Class("succeeded-" + class)
-				}
+				countRejected(exec(op), class)
 			},
 			"failing2": func(rt *rapid.T) {
-				if diverged {
-					return // the case ended; keep the state machine idle
-				}
 				op, class := g.failingOp(rt, w.m)
-				_, status, f := w.do(op)
-				fail(f)
-				if status == stepRejected {
-					st.Class("rejected-" + class)
-					t := w.m.Tables[s.Table]
-					if len(t.Items) > 0 && len(t.Schema.Indexes) > 0 {
-						nontrivial = true
-					}
+				countRejected(exec(op), class)
+			},
+			"addIndex": func(rt *rapid.T) {
+				if lateIdx >= 2 {
+					return
 				}
-				diverged = diverged || status == stepDiverged
+				op, ok := g.lateIndexOp(rt, w.m, lateIdx+1)
+				if !ok {
+					return
+				}
+				lateIdx++
+				if exec(op) == stepDone {
+					st.Class("index-added-to-populated-table")
+				}
+				g.adoptLateIndex(rt, w.m, op)
 			},
 			"underFailure": func(rt *rapid.T) {
-				if diverged {
-					return // the case ended; keep the state machine idle
-				}
 				// all draws first: an action abandoned by rapid in the middle
 				// (a generator giving up) must not leave the failure switched on
 				mode := rapid.SampledFrom([]string{"internal_server", "deprecated"}).Draw(rt, "failureMode")
@@ -474,16 +529,11 @@ func TestC08(t *testing.T) {
 					normOp(g.updateOp(rt, w.m, 0)),
 					{Kind: "Delete", Table: s.Table, Key: g.key(rt)},
 				}).Draw(rt, "opUnderFailure")
-				_, _, f := w.do(model.Op{Kind: "SetFailure", Failure: mode})
-				fail(f)
-				_, status, f := w.do(op)
-				fail(f)
-				if status == stepRejected {
+				exec(model.Op{Kind: "SetFailure", Failure: mode})
+				if exec(op) == stepRejected {
 					st.Class("rejected-under-emulated-failure")
 				}
-				diverged = diverged || status == stepDiverged
-				_, _, f = w.do(model.Op{Kind: "SetFailure", Failure: "none"})
-				fail(f)
+				exec(model.Op{Kind: "SetFailure", Failure: "none"})
 			},
 			"": func(rt *rapid.T) {
 				if !diverged {
